@@ -64,7 +64,8 @@ def signature(scn, variant):
     if i["op"] == "flatten":
         return "flatten/%s/ndim=%d/S=%s/%s/form=%s/insert=%s" % (variant, len(i["a"]["dims"]), "".join(map(str, i["S"])), _subset_class(i),
                                                                 i["form"], i["insert"][0] if i["insert"] else "default")
-    return "reshape/%s/ndim=%d/groups=%s" % (variant, len(i["a"]["dims"]), "|".join(",".join(g) for g in i["groups"]))
+    return "reshape/%s/ndim=%d/groups=%s%s" % (variant, len(i["a"]["dims"]), "|".join(",".join(g) for g in i["groups"]),
+                                               "/pregrouped=" + ",".join(str(k) for k in i["pre"]) if i.get("pre") else "")
 
 
 def project_grouped(obj, codec):
@@ -153,6 +154,8 @@ def replay(scn):
         a_abs = i["a"]
         for byname in ((True, False) if i["op"] == "flatten" and i["form"] != "set" else (True,)):
             a = A.gamma(a_abs, codec, [kmap[d] for d in a_abs["dims"]])
+            if i.get("pre"):
+                a = a.flatten(tuple(a_abs["dims"][k - 1] for k in i["pre"]))      # the operand already carries a grouped axis
             before = A.snapshot(a)
             variant = "kinds=%s byname=%s" % (kname, byname)
             calls += 1
@@ -265,8 +268,9 @@ def replay(scn):
             if what is None and i["op"] == "reshape":
                 # transpose=False: allowed exactly when the target keeps the dimensions it shares with the array in the array's order
                 flat = [d for g in i["groups"] for d in g]
-                shared_t = [d for d in flat if d in a_abs["dims"]]
-                shared_a = [d for d in a_abs["dims"] if d in flat]
+                adims = [m for d in a.dims for m in d.split(",")]          # member order of the operand (it may carry a grouped axis already)
+                shared_t = [d for d in flat if d in adims]
+                shared_a = [d for d in adims if d in flat]
                 names = [",".join(g) for g in i["groups"]]
                 calls += 1
                 try:
